@@ -76,6 +76,25 @@ class BoolV:
     value: bool | None = None
 
 
+@dataclass(frozen=True)
+class SetV:
+    """A finite collection of exact strings (list / set / tuple / frozenset)."""
+
+    items: frozenset = frozenset()
+
+
+@dataclass(frozen=True)
+class ObjV:
+    """Some non-None object (truthy) about which nothing else is known."""
+
+    tag: str = "obj"
+
+
+@dataclass(frozen=True)
+class TupleV:
+    elts: tuple = ()
+
+
 def lit(v) -> StrV:
     if isinstance(v, bytes):
         s = v.decode("latin-1")
@@ -109,6 +128,12 @@ def truthy(v) -> bool | None:
         return v.value
     if isinstance(v, IntV) and v.lo is not None and v.hi is not None and v.lo == v.hi:
         return v.lo != 0
+    if isinstance(v, SetV):
+        return bool(v.items)
+    if isinstance(v, ObjV):
+        return True
+    if isinstance(v, TupleV):
+        return bool(v.elts)
     return None
 
 
@@ -122,6 +147,8 @@ class Interp:
         # values for names/attribute chains that the state does not define
         # (rule-supplied abstract samples, e.g. the fields of a parse result)
         self.oracle: dict = {}
+        # optional hook: call node -> abstract value (or None to fall through)
+        self.call_oracle = None
 
     # ----------------------------------------------------------- lookups
     def _field_type(self, chain: str) -> str | None:
@@ -279,6 +306,13 @@ class Interp:
             return self.eval(e.value, st)
         if isinstance(e, ast.NamedExpr):
             return self.eval(e.value, st)
+        if isinstance(e, ast.Tuple):
+            return TupleV(tuple(self.eval(x, st) for x in e.elts))
+        if isinstance(e, (ast.List, ast.Set)):
+            vals = [self.eval(x, st) for x in e.elts]
+            if all(isinstance(v, StrV) and isinstance(v.exact, str) for v in vals):
+                return SetV(frozenset(v.exact for v in vals))
+            return TOP
         return TOP
 
     def _to_str(self, v, part: ast.FormattedValue | None = None):
@@ -316,6 +350,17 @@ class Interp:
         f = c.func
         d = dotted(f) or ""
         mc = method_call(c)
+        if self.call_oracle is not None:
+            r = self.call_oracle(c)
+            if r is not None:
+                return r
+        if d in ("set", "frozenset", "list", "tuple", "sorted") and len(c.args) <= 1:
+            if not c.args:
+                return SetV(frozenset())
+            v = self.eval(c.args[0], st)
+            if isinstance(v, SetV):
+                return v
+            return TOP
         # builtins
         if d == "str" and len(c.args) == 1:
             return self._to_str(self.eval(c.args[0], st))
@@ -498,6 +543,10 @@ class Interp:
                     r = False
                 if r is not None and isinstance(op, ast.NotIn):
                     r = not r
+            elif isinstance(op, (ast.In, ast.NotIn)) and isinstance(b, SetV) and isinstance(a, StrV) and a.exact is not None:
+                r = a.exact in b.items
+                if isinstance(op, ast.NotIn):
+                    r = not r
             elif isinstance(op, (ast.Eq, ast.NotEq)) and isinstance(a, StrV) and isinstance(b, StrV) and a.exact is not None and b.exact is not None:
                 r = a.exact == b.exact
                 if isinstance(op, ast.NotEq):
@@ -507,7 +556,7 @@ class Interp:
             elif isinstance(op, (ast.Is, ast.IsNot)) and isinstance(b, NoneV):
                 if isinstance(a, NoneV):
                     r = True
-                elif isinstance(a, (IntV, StrV, BoolV)):
+                elif isinstance(a, (IntV, StrV, BoolV, SetV, ObjV, TupleV)):
                     r = False
                 if r is not None and isinstance(op, ast.IsNot):
                     r = not r
@@ -867,6 +916,8 @@ def join(a, b):
         return a
     if isinstance(a, BoolV) and isinstance(b, BoolV):
         return a if a == b else BoolV(None)
+    if a == b:
+        return a
     return TOP
 
 
